@@ -135,6 +135,17 @@ func genHist(seed uint64, prop, tier string, audit bool, mode string) *Plan {
 		p.Cfgs = append(p.Cfgs, c)
 	}
 	p.Knobs["n_cfgs"] = nCfg
+	for _, c := range p.Cfgs {
+		for _, t := range c.Targets {
+			if isProbeName(t) || !g.Chance(0.6) || len(p.Objects) >= 9 {
+				continue
+			}
+			t := t
+			if o := pickClass(g, func(e *corpusClassEntry) bool { return inList(e.Conf, t) }); o != nil {
+				p.Objects = append(p.Objects, *o)
+			}
+		}
+	}
 
 	// ---- ops
 	all := map[string]bool{}
@@ -181,6 +192,9 @@ func genHist(seed uint64, prop, tier string, audit bool, mode string) *Plan {
 		case 6:
 			p.Ops = append(p.Ops, Op{K: "defaultcfg", Reg: g.Intn(len(hg.mregs))})
 		}
+	}
+	if g.Chance(0.6) {
+		p.Ops = append(p.Ops, Op{K: "fresh", Reg: g.Intn(len(hg.mregs))})
 	}
 	return p
 }
@@ -284,7 +298,9 @@ func (hg *histGen) emitSetCfg(reg int) {
 func (hg *histGen) emitRead(reg int) {
 	g := hg.g
 	names := hg.mregs[reg].names()
-	switch g.Intn(7) {
+	switch g.Intn(8) {
+	case 7:
+		hg.p.Ops = append(hg.p.Ops, Op{K: "fresh", Reg: reg})
 	case 0:
 		hg.p.Ops = append(hg.p.Ops, Op{K: "names", Reg: reg})
 	case 1:
